@@ -905,7 +905,9 @@ func (r *Reader) processHeading(h headingXML) parsedParagraph {
 	// Parse outline level: the heading's own text:outline-level decides its level
 	levelGiven := false
 	if h.OutlineLevel != "" {
-		if level, err := strconv.Atoi(h.OutlineLevel); err == nil && level >= 1 && level <= 9 {
+		// text:outline-level is a positive integer (ODF 1.2 part 1, 19.844.4);
+		// writers offer ten levels
+		if level, err := strconv.Atoi(h.OutlineLevel); err == nil && level >= 1 && level <= 10 {
 			parsed.Level = level
 			levelGiven = true
 		}
